@@ -1,6 +1,7 @@
 package main
 
 import (
+	"fmt"
 	"go/constant"
 	"go/token"
 	"go/types"
@@ -79,6 +80,8 @@ func checkC07(p *Prog, r *Report) {
 	checkFieldsFresh(p, r, "C07")
 	checkFieldsDupCheck(p, r, "C07")
 	checkCollectionDetection(p, r, np)
+	r.rule("C07.rel-fragment: NewURL looks the relationship of a relationship URL up under the last path fragment (or a fixed position under the test that the path has exactly that many fragments), the fragment NewParams uses for the collection question")
+	checkRelFragment(p, r)
 	checkIDTotal(p, r, np)
 	checkURLTypeExists(p, r)
 }
@@ -1483,4 +1486,91 @@ func dupVerdictOf(g *ssa.Function, list *ssa.Parameter, idx int) bool {
 		return false
 	}
 	return n > 0
+}
+
+// checkRelFragment: NewURL resolves the relationship of a relationship URL
+// from the LAST path fragment - the fragment from which NewParams decides
+// whether the URL denotes a collection (checkCollectionDetection). A lookup
+// keyed by a fixed position agrees with it only under the test that the path
+// has exactly that many fragments.
+func checkRelFragment(p *Prog, r *Report) {
+	f := p.Fn("NewURL")
+	if f == nil {
+		r.fail("anchor NewURL not found")
+		return
+	}
+	isFrags := func(v ssa.Value) bool {
+		if _, fl, ok := fieldLoad(v); ok && fl == "Fragments" {
+			return true
+		}
+		prm, isPrm := v.(*ssa.Parameter)
+		return isPrm && paramBoundToField(p, prm, "Fragments")
+	}
+	lenOfFrags := func(v ssa.Value) bool {
+		c, _ := callOf(v)
+		return c != nil && builtinName(c.Common()) == "len" && isFrags(c.Common().Args[0])
+	}
+	n := 0
+	eachInstrOf(append([]*ssa.Function{f}, stringHelpers(f)...), func(ins ssa.Instruction) {
+		lk, ok := ins.(*ssa.Lookup)
+		if !ok {
+			return
+		}
+		if _, fl, ok := fieldLoad(lk.X); !ok || fl != "Rels" {
+			return
+		}
+		n++
+		good, why := true, ""
+		nFrag := 0
+		for _, o := range originsDeep(lk.Index) {
+			ld, isLd := o.(*ssa.UnOp)
+			if !isLd || ld.Op != token.MUL {
+				continue
+			}
+			ia, isIA := ld.X.(*ssa.IndexAddr)
+			if !isIA || !isFrags(ia.X) {
+				continue
+			}
+			nFrag++
+			if k, isC := constInt(ia.Index); isC {
+				exact := false
+				for _, ef := range expandFacts(factsAt(ld.Block())) {
+					bo, ok := ef.Cond.(*ssa.BinOp)
+					if !ok {
+						continue
+					}
+					op := bo.Op
+					if !ef.Truth {
+						op = negateCmp(op)
+					}
+					if op != token.EQL {
+						continue
+					}
+					if c, isK := constInt(bo.Y); isK && c == k+1 && lenOfFrags(bo.X) {
+						exact = true
+					}
+					if c, isK := constInt(bo.X); isK && c == k+1 && lenOfFrags(bo.Y) {
+						exact = true
+					}
+				}
+				if !exact {
+					good, why = false, fmt.Sprintf("fragment %d on paths that may be longer", k)
+				}
+				continue
+			}
+			sub, isSub := ia.Index.(*ssa.BinOp)
+			if isSub && sub.Op == token.SUB && lenOfFrags(sub.X) {
+				if c, isK := constInt(sub.Y); isK && c == 1 {
+					continue
+				}
+			}
+			good, why = false, "a fragment at "+"index "+ia.Index.Name()
+		}
+		if nFrag == 0 {
+			good, why = false, "a key that is not a path fragment"
+		}
+		r.decide(good, "C07.rel-fragment", "NewURL:"+p.describe(lk), p.pos(lk.Pos()), "the relationship is the one named by the last fragment",
+			"NewURL resolves the relationship from "+why+", while NewParams decides from the last fragment whether the URL is a collection: the two can name different relationships, so a URL comes back as a collection without sorting rules (or the reverse)")
+	})
+	r.floor("relationship lookups in NewURL", n, 1)
 }
